@@ -62,7 +62,13 @@ using namespace cds_utils;
 #include "utils/Coder/StatCoder.h"
 #include "utils/LogSequence.h"
 
+#ifdef LIBCSD_VERIF
+extern "C" unsigned long libcsd_verif_memalloc(void);
+#define MEMALLOC (libcsd_verif_memalloc())
+#endif
+#ifndef MEMALLOC
 #define MEMALLOC 32768
+#endif
 
 class StringDictionaryHTFC : public StringDictionary {
 public:
